@@ -1,3 +1,4 @@
+import operator
 import os
 
 GPU_FLAG = os.getenv('SETIGEN_ENABLE_GPU', '0')
@@ -88,11 +89,19 @@ class DataStream(object):
         """
         Set array of times for voltage calculation, and reset voltage array.
         """
-        self.ts = self.t_start + xp.linspace(0., 
-                                             num_samples * self.dt,
-                                             num_samples,
-                                             endpoint=False)
-        self.t_start += num_samples * self.dt
+        # Sample times are counted from the last set_time() with an integer sample counter, so 
+        # that sample k of an observation gets the same time however the requests are chunked 
+        # (a clock advanced by `t_start += num_samples * dt` accumulates one rounding error per 
+        # request)
+        num_samples = operator.index(num_samples)
+        if num_samples < 0:
+            raise ValueError(f'Number of samples, {num_samples}, must be non-negative.')
+        if getattr(self, '_t_ref', None) is None or self.t_start != self._t_ref + self._n_ref * self.dt:
+            # First request, or t_start was assigned directly
+            self._t_ref, self._n_ref = self.t_start, 0
+        self.ts = self._t_ref + (self._n_ref + xp.arange(num_samples)) * self.dt
+        self._n_ref += num_samples
+        self.t_start = self._t_ref + self._n_ref * self.dt
         self.v = xp.zeros(num_samples)
         
     def set_time(self, t):
@@ -101,6 +110,7 @@ class DataStream(object):
         """
         self.start_obs = True
         self.t_start = float(t)
+        self._t_ref, self._n_ref = self.t_start, 0
         
     def add_time(self, t):
         """
@@ -120,14 +130,14 @@ class DataStream(object):
         """
         start_obs = self.start_obs
         t_start = self.t_start
+        t_ref, n_ref = getattr(self, '_t_ref', None), getattr(self, '_n_ref', 0)
         
         v = self.get_samples(num_samples=stats_calc_num_samples)
         _, self.noise_std = estimate_stats(v, stats_calc_num_samples=stats_calc_num_samples)
         
         self.start_obs = start_obs
-        # A plain float: a float32 start time would freeze the clock (float32 += small float), 
-        # a 0-d array would be shared and advanced in place by every stream holding it
         self.t_start = float(t_start)
+        self._t_ref, self._n_ref = t_ref, n_ref
         
     def get_total_noise_std(self):
         """
